@@ -1,10 +1,14 @@
 package verifh
 
 import (
+	"bufio"
 	"encoding/base32"
 	"encoding/hex"
 	"encoding/json"
 	"fmt"
+	"io"
+	"net"
+	"net/http"
 	"net/url"
 	"os"
 	"sort"
@@ -238,8 +242,10 @@ func runRestStep(sv *restServer, s restStep) (labels []string, nt bool, err erro
 			labels = append(labels, "server-time")
 			if echoed {
 				ts, _ = n.Int64()
-				if d := time.Now().Unix() - ts; d < -5 || d > 60 {
-					return fail("POST /totp/generate without timestamp echoed timestamp %d, not the current time", ts)
+				// "the current time" is a second between the moment the request left and the moment the answer arrived (same
+				// clock: the server runs on this machine), whatever the load — not the time the connection was opened
+				if after := time.Now().Unix(); ts < before-2 || ts > after+2 {
+					return fail("POST /totp/generate without timestamp echoed timestamp %d, not the current time: the request was in flight from %d to %d", ts, before, after)
 				}
 			} else {
 				// no instant in the answer: the code must be the RFC value for some second while the request was in flight
@@ -1149,4 +1155,83 @@ func TestC18_FreshProcesses(t *testing.T) {
 		c18Fresh.each(t, c18FreshCase{Processes: 2, PerAlgo: 4})
 	}
 	c18Fresh.rec().Exhaustive()
+}
+
+// ---------------------------------------------------------------------------
+// An idle keep-alive connection. "The documented default for an omitted timestamp" is the current time — of the request,
+// not of the connection it arrives on. The pooled client never keeps a connection for long (the service closes it after 100
+// requests), so this part holds one connection open itself: a request, three seconds of silence, the same request again.
+type c18IdleCase struct {
+	IdleMillis int `json:"idle_ms"`
+}
+
+var c18Idle = newPart("C18", "idle-keep-alive",
+	"one connection held open by the harness: POST /totp/generate and /totp/validate without a timestamp (period 1, so every second is a step), 3.2 s of silence, then the same requests again on the same connection; the code of each answer is the RFC value of a second between the moment that request left and the moment its answer arrived, and the code generated just now validates; one case",
+	func(c c18IdleCase) verdict {
+		sv := server()
+		conn, err := net.DialTimeout("tcp", sv.addr, 5*time.Second)
+		if err != nil {
+			return bad(true, nil, "cannot connect: %v", err)
+		}
+		defer conn.Close()
+		br := bufio.NewReader(conn)
+		key := []byte("12345678901234567890")
+		secret := ref.B32(key)
+		exchange := func(path, body string) (map[string]any, int, error) {
+			conn.SetDeadline(time.Now().Add(15 * time.Second))
+			fmt.Fprintf(conn, "POST %s HTTP/1.1\r\nHost: x\r\nContent-Type: application/json\r\nContent-Length: %d\r\nConnection: keep-alive\r\n\r\n%s", path, len(body), body)
+			resp, err := http.ReadResponse(br, nil)
+			if err != nil {
+				return nil, 0, err
+			}
+			defer resp.Body.Close()
+			var m map[string]any
+			b, _ := io.ReadAll(resp.Body)
+			json.Unmarshal(b, &m)
+			return m, resp.StatusCode, nil
+		}
+		round := func(name string) error {
+			before := time.Now().Unix()
+			m, st, err := exchange("/totp/generate", fmt.Sprintf(`{"secret":%q,"period":1,"digits":"8","algorithm":"SHA1"}`, secret))
+			after := time.Now().Unix()
+			if err != nil || st != 200 {
+				return fmt.Errorf("%s: POST /totp/generate on the held connection: status %d, %v", name, st, err)
+			}
+			code, _ := m["code"].(string)
+			hit := false
+			for x := before - 1; x <= after+1; x++ {
+				if ref.MustHOTP(key, uint64(x), 8, 0) == code {
+					hit = true
+				}
+			}
+			if !hit {
+				return fmt.Errorf("%s: POST /totp/generate without timestamp (period 1) answered code %q (timestamp %v); it is not the RFC value of any second while the request was in flight (%d..%d): the default for an omitted timestamp is the current time", name, code, m["timestamp"], before, after)
+			}
+			// the code of this very second validates (window 2 covers the second that may have passed)
+			cur := ref.MustHOTP(key, uint64(time.Now().Unix()), 8, 0)
+			m, st, err = exchange("/totp/validate", fmt.Sprintf(`{"secret":%q,"code":%q,"period":1,"digits":"8","algorithm":"SHA1","skew":2}`, secret, cur))
+			if err != nil {
+				return fmt.Errorf("%s: POST /totp/validate on the held connection: %v", name, err)
+			}
+			if v, _ := m["valid"].(bool); st != 200 || !v {
+				return fmt.Errorf("%s: POST /totp/validate without timestamp (period 1, skew 2) rejects the code of the current second (status %d, answer %v)", name, st, m)
+			}
+			return nil
+		}
+		if err := round("first request"); err != nil {
+			return bad(true, nil, "%v", err)
+		}
+		time.Sleep(time.Duration(c.IdleMillis) * time.Millisecond)
+		if err := round(fmt.Sprintf("after %d ms of silence on the same connection", c.IdleMillis)); err != nil {
+			return bad(true, nil, "%v", err)
+		}
+		return ok(true)
+	})
+
+func TestC18_IdleKeepAlive(t *testing.T) {
+	defer c18Idle.rec().Flush()
+	if ev.Mine(0) {
+		c18Idle.each(t, c18IdleCase{IdleMillis: 3200})
+	}
+	c18Idle.rec().Exhaustive()
 }
